@@ -756,3 +756,13 @@ Definition interpret_check (sts : list stmt) (s : tc) : outcome * tc :=
   | Ok (outs, s') => (Accepted outs, s')
   | Err e => (Rejected e, s)
   end.
+
+(* the same with the run stage made explicit: `run` (bytecode compilation + execution, which is
+   where print statements act and values are defined) is entered only with the typed statements
+   of a completely checked input *)
+Definition interpret {R : Type} (run : list sout -> R) (sts : list stmt) (s : tc)
+  : outcome * tc * option R :=
+  match check sts s with
+  | Ok (outs, s') => (Accepted outs, s', Some (run outs))
+  | Err e => (Rejected e, s, None)
+  end.
